@@ -9,7 +9,8 @@ LEVEL = "exploration"
 RULE = ("texts are assembled from pieces (words, keyword, numbers, quoted strings with blanks and "
         "non-ASCII letters, ';', brackets, // comments, /* */ comments closing on the same or on a later "
         "line, blank runs with tabs, form feeds and other whitespace characters, line breaks, blank lines, trailing blanks) while the harness tracks "
-        "(line, column) of every piece itself; each text is given as str and as list of lines, to four "
+        "(line, column) of every piece itself; each text is given as str, as list of lines and as a lazy iterable of lines during whose "
+        "consumption the same parser parses another text, to four "
         "tokenizer configurations (comments skipped / comments as grammar tokens / blanks as grammar "
         "tokens / no span matcher) and parsed with a statement grammar that has nullable nodes before "
         "';', before ')' , at line ends and at the end of the text. Observed: the complete token stream "
@@ -220,15 +221,31 @@ def slice_text(text, start, end):
 def judge(ctx, cfg_id, pieces, form, case):
     cfg = CONFIGS[cfg_id]
     parser = get_parser(cfg_id)
-    text, stream = layout(pieces, form)
+    text, stream = layout(pieces, "lines" if form == "lazy" else form)
     src = text if form == "str" else text.split("\n")
+    if form == "lazy":
+        # the text is a lazy iterable of lines; while it is being consumed the same parser is used
+        # for another text (re-entrant use of one long-lived parser)
+        lines = src
+
+        def lazy_lines():
+            for k, line in enumerate(lines):
+                if k % 2 == 1:
+                    try:
+                        parser.parse("zz /* q\n q */ 7 ;\n  (\n)", do_cleanup=False)
+                    except llparser.Error:
+                        pass
+                yield line
+        make_src = lazy_lines
+    else:
+        make_src = lambda: src
     n_lines = text.count("\n") + 1
     skip = parser.skip_tokens
     ctx.evaluated()
     bad = [s for s in stream if s[0] == "<bad>"]
     if bad:
         try:
-            parser.parse(src, do_cleanup=False)
+            parser.parse(make_src(), do_cleanup=False)
         except llparser.LexicalError as err:
             ctx.count("lexical_errors_checked")
             if err.src_pos.line != bad[0][1][0]:
@@ -244,7 +261,7 @@ def judge(ctx, cfg_id, pieces, form, case):
     tokenizer = getattr(parser, "tokenizer", None)
     if tokenizer is not None and hasattr(tokenizer, "tokenize"):
         try:
-            got = list(tokenizer.tokenize(src, "x"))
+            got = list(tokenizer.tokenize(make_src(), "x"))
         except llparser.Error as err:
             ctx.violation("tokenizer-raises", {"type": type(err).__name__, "msg": str(err)[:100]}, case)
             return
@@ -277,7 +294,7 @@ def judge(ctx, cfg_id, pieces, form, case):
         ctx.count("tokenizer_not_observable")
     # ---- tree
     try:
-        tree = parser.parse(src, do_cleanup=False)
+        tree = parser.parse(make_src(), do_cleanup=False)
     except llparser.Error as err:
         ctx.violation("valid-text-rejected", {"type": type(err).__name__, "msg": str(err)[:200]}, case)
         return
@@ -347,7 +364,7 @@ def judge(ctx, cfg_id, pieces, form, case):
 
 
 def run_case(ctx, cfg_id, pieces):
-    for form in ("str", "lines"):
+    for form in ("str", "lines", "lazy"):
         case = {"cfg": cfg_id, "pieces": [list(p) for p in pieces], "form": form}
         judge(ctx, cfg_id, pieces, form, case)
 
@@ -359,10 +376,10 @@ def run_shard(ctx):
         pieces = gen_pieces(rng, CONFIGS[cfg_id])
         if i % 6 == 5:
             # a character no pattern matches, as a piece of its own
-            pos = rng.randint(0, len(pieces))
+            pos = rng.randint(0, len(pieces)) if rng.random() < 0.7 else 0
             while pos > 0 and pieces[pos - 1][2].startswith("//"):
                 pos -= 1  # anything behind '//' belongs to the comment
-            pieces.insert(pos, ("bad", None, rng.choice(["@", "$", "%", "/ ", "}"])))
+            pieces.insert(pos, ("bad", None, rng.choice(["@", "$", "%", "/ ", "}", "\ufeff", "\x00", "\ufeff"])))
         run_case(ctx, cfg_id, pieces)
         if i in (0, 1, 7):
             text, stream = layout(pieces, "str")
